@@ -276,4 +276,119 @@ theorem bct_int_mul_sound' (a : Code) (ha : Shaped a) (sa : Struct a) (m : Nat) 
     obtain ⟨l, hl', hxl⟩ := List.mem_flatten.mp hx
     exact (hA l (hd l hl')).2.1 x hxl
 
+/-! ### concatenation `a * f` (double_decoding) -/
+
+theorem foldlM_inv {α β : Type} (Q : β → Prop) (step : β → α → Except Err β)
+    (hstep : ∀ acc x acc', Q acc → step acc x = .ok acc' → Q acc') (l : List α) (init out : β) (hinit : Q init)
+    (h : l.foldlM step init = .ok out) : Q out := by
+  induction l generalizing init with
+  | nil =>
+    simp only [List.foldlM_nil, pure, Except.pure, Except.ok.injEq] at h
+    subst h; exact hinit
+  | cons x r ih =>
+    rw [List.foldlM_cons] at h
+    cases h1 : step init x with
+    | error e => simp [h1, bind, Except.bind] at h
+    | ok acc1 =>
+      simp only [h1, bind, Except.bind] at h
+      exact ih acc1 (hstep init x acc1 hinit h1) h
+
+theorem ddTerm_ne (d2 : List DEntry) (summand : Mono) (t : Poly) (h : ddTerm d2 summand = .ok t) :
+    ∀ m ∈ t, m ≠ [] := by
+  unfold ddTerm at h
+  refine foldlM_inv (fun (p : Poly) => ∀ m ∈ p, m ≠ []) _ ?_ _ _ _ (by simp) h
+  intro acc f acc' hacc hs
+  cases hd : (d2[f]? : Option DEntry) with
+  | none => simp [hd] at hs
+  | some e =>
+    cases e with
+    | poly q =>
+      simp only [hd, Except.ok.injEq] at hs
+      subst hs; exact imul_ne acc q
+    | int0 =>
+      simp only [hd, Except.ok.injEq] at hs
+      subst hs
+      simp [imulInt]
+
+theorem doubleDecoding_struct (d1 d2 dd : List DEntry) (h : doubleDecoding d1 d2 = .ok dd) :
+    dd.length = d1.length ∧ (∀ e ∈ dd, ∃ p, e = .poly p) ∧ (∀ e ∈ dd, ∀ t ∈ e.toPoly, t ≠ []) := by
+  unfold doubleDecoding at h
+  have hP := mapM_forall _ (fun (e : DEntry) => (∃ p, e = .poly p) ∧ ∀ t ∈ e.toPoly, t ≠ []) ?_ d1 dd h
+  · refine ⟨?_, fun e he => (hP e he).1, fun e he => (hP e he).2⟩
+    clear hP
+    induction d1 generalizing dd with
+    | nil =>
+      simp only [List.mapM_nil, pure, Except.pure, Except.ok.injEq] at h
+      subst h; rfl
+    | cons x r ih =>
+      rw [List.mapM_cons] at h
+      simp only [bind, Except.bind] at h
+      split at h
+      · cases h
+      · split at h
+        · cases h
+        · rename_i y _ rest hr
+          simp only [pure, Except.pure, Except.ok.injEq] at h
+          subst h
+          rw [List.length_cons, List.length_cons, ih rest hr]
+  · intro x y hxy
+    cases x with
+    | int0 => cases hxy
+    | poly p =>
+      simp only at hxy
+      refine foldlM_inv (fun (e : DEntry) => (∃ p, e = .poly p) ∧ ∀ t ∈ e.toPoly, t ≠ []) _ ?_ _ _ _
+        ⟨⟨[], rfl⟩, by simp [DEntry.toPoly]⟩ hxy
+      intro acc summand acc' hacc hs
+      cases ht : ddTerm d2 summand with
+      | error e => simp [ht, bind, Except.bind] at hs
+      | ok t =>
+        simp only [ht, bind, Except.bind, pure, Except.pure, Except.ok.injEq] at hs
+        subst hs
+        refine ⟨⟨_, rfl⟩, ?_⟩
+        intro m hm
+        simp only [DEntry.toPoly] at hm
+        rcases mem_iadd t acc.toPoly m hm with h1 | h1
+        · exact ddTerm_ne d2 summand t ht m h1
+        · exact hacc.2 m h1
+
+theorem imulCode_struct (a f c : Code) (h : a.imulCode f = .ok c) (ha : Struct a) : Struct c := by
+  unfold Code.imulCode at h
+  split at h
+  · cases h
+  · cases hd : doubleDecoding a.dec f.dec with
+    | error e => simp [hd, bind, Except.bind] at h
+    | ok dd =>
+      simp only [hd, bind, Except.bind, pure, Except.pure, Except.ok.injEq] at h
+      subst h
+      obtain ⟨d1, d2, d3⟩ := doubleDecoding_struct a.dec f.dec dd hd
+      exact ⟨by show dd.length = a.nm; rw [d1, ha.1], d2, d3⟩
+
+/-- `c = a * f` (concatenation): when `a` decodes what it encodes on `dom` and `f` on the encodings of `dom`, the
+transform with `c` is sound on `dom` -/
+theorem bct_concat_sound' (a f c : Code) (h : a.imulCode f = .ok c) (ha : Shaped a) (sa : Struct a)
+    (dom : List Nat → Prop)
+    (hA : ∀ v, dom v → v.length = a.nm ∧ (∀ x ∈ v, x ≤ 1) ∧ ValidOn a v ∧ ValidOn f (encode a v))
+    (H R : Op) (hwf : ∀ tc ∈ H, ∀ g ∈ tc.1, g.2 ≤ 1 ∧ g.1 < a.nm)
+    (v u : List Nat) (hv : dom v) (hu : dom u)
+    (wq xq s out : Nat) (hw : bitsOf wq = encFn c v) (hx : bitsOf xq = encFn c u)
+    (hs : ∀ j, s.testBit j = (v.getD j 0 == 1)) (ho : ∀ j, out.testBit j = (u.getD j 0 == 1))
+    (hpres : ∀ tc ∈ H, ∀ k s', actFTerm tc.1 s = some (k, s') → dom (occList s' a.nm))
+    (hR : binaryCodeTransform 0 H c = .ok R) :
+    den .qubit R [wq] [xq] = melF H out s := by
+  have sc := imulCode_struct a f c h sa
+  have hnm : c.nm = a.nm := by
+    unfold Code.imulCode at h
+    split at h
+    · cases h
+    · cases hd : doubleDecoding a.dec f.dec with
+      | error e => simp [hd, bind, Except.bind] at h
+      | ok dd =>
+        simp only [hd, bind, Except.bind, pure, Except.pure, Except.ok.injEq] at h
+        subst h; rfl
+  refine bct_sound_encoded c H R dom sc.1 sc.2.1 sc.2.2 ?_ (by rw [hnm]; exact hwf) v u hv hu wq xq s out hw hx hs ho
+    (by rw [hnm]; exact hpres) hR
+  intro w hwd
+  obtain ⟨l, b, va, vf⟩ := hA w hwd
+  exact ⟨by rw [hnm]; exact l, b, concat_valid' a f c w h ha va vf⟩
+
 end OFV.C09
